@@ -28,7 +28,7 @@ src: mem.c
 enforce: spifmem_malloc
 replace: memrec_add_var
 backend: sat
-timeout: 280
+timeout: 600
 mem: 14
 */
 /*@unit
@@ -39,7 +39,7 @@ src: mem.c
 enforce: spifmem_malloc
 replace: memrec_add_var
 backend: sat
-timeout: 280
+timeout: 600
 mem: 14
 */
 /*@unit
@@ -50,7 +50,7 @@ src: mem.c
 enforce: spifmem_malloc
 replace: memrec_add_var
 backend: sat
-timeout: 280
+timeout: 600
 mem: 14
 */
 /*@unit
@@ -60,7 +60,7 @@ debug: 5
 src: mem.c
 enforce: spifmem_calloc
 replace: memrec_add_var
-backend: sat,z3
+backend: sat
 tier: B
 bound: element size fixed to 24 bytes (count symbolic up to 65535, table size symbolic)
 timeout: 200
@@ -73,10 +73,10 @@ debug: 5
 src: mem.c
 enforce: spifmem_calloc
 replace: memrec_add_var
-backend: sat,z3
+backend: sat
 tier: B
 bound: element size fixed to 24 bytes (count symbolic up to 65535, table size symbolic)
-timeout: 280
+timeout: 600
 mem: 14
 */
 /*@unit
@@ -86,10 +86,10 @@ debug: 5
 src: mem.c
 enforce: spifmem_calloc
 replace: memrec_add_var
-backend: sat,z3
+backend: sat
 tier: B
 bound: element size fixed to 24 bytes (count symbolic up to 65535, table size symbolic)
-timeout: 280
+timeout: 600
 mem: 14
 */
 /*@unit
@@ -99,10 +99,10 @@ debug: 5
 src: mem.c
 enforce: spifmem_calloc
 replace: memrec_add_var
-backend: sat,z3
+backend: sat
 tier: B
 bound: element size fixed to 24 bytes (count symbolic up to 65535, table size symbolic)
-timeout: 280
+timeout: 600
 mem: 14
 */
 /*@unit
@@ -135,7 +135,7 @@ src: mem.c
 enforce: spifmem_realloc
 replace: memrec_add_var, memrec_rem_var, memrec_chg_var
 backend: sat
-timeout: 280
+timeout: 600
 mem: 14
 */
 /*@unit
@@ -146,7 +146,7 @@ src: mem.c
 enforce: spifmem_realloc
 replace: memrec_add_var, memrec_rem_var, memrec_chg_var
 backend: sat
-timeout: 280
+timeout: 600
 mem: 14
 */
 /*@unit
@@ -157,7 +157,7 @@ src: mem.c
 enforce: spifmem_realloc
 replace: memrec_add_var, memrec_rem_var, memrec_chg_var
 backend: sat
-timeout: 280
+timeout: 600
 mem: 14
 */
 /*@unit
@@ -168,7 +168,7 @@ src: mem.c
 enforce: spifmem_realloc
 replace: memrec_add_var, memrec_rem_var, memrec_chg_var
 backend: sat
-timeout: 280
+timeout: 600
 mem: 14
 */
 /*@unit
@@ -190,7 +190,7 @@ src: mem.c
 enforce: spifmem_realloc
 replace: memrec_add_var, memrec_rem_var, memrec_chg_var
 backend: sat
-timeout: 280
+timeout: 600
 mem: 14
 */
 /*@unit
@@ -212,7 +212,7 @@ src: mem.c
 enforce: spifmem_strdup
 replace: spifmem_malloc
 backend: sat
-timeout: 280
+timeout: 600
 mem: 14
 */
 /*@unit
@@ -223,7 +223,7 @@ src: mem.c
 enforce: spifmem_strdup
 replace: spifmem_malloc
 backend: sat
-timeout: 280
+timeout: 600
 mem: 14
 */
 /*@unit
@@ -234,7 +234,7 @@ src: mem.c
 enforce: spifmem_strdup
 replace: spifmem_malloc
 backend: sat
-timeout: 280
+timeout: 600
 mem: 14
 */
 /*@unit
